@@ -184,6 +184,12 @@ let run_op (g1 : bool) (dbg : bool) (op : str) (a : tok list) : str =
   | "multi_from_sigs" -> in_res fmt_tagged (multi_from_sigs k (tagged_list (list_of (arg 0))))
   | "multi_verify" ->
     unit_res (multi_verify k o c { tg_scheme = scheme_of (arg 0); tg_pt = sigpt_of (arg 1) } (pkpt_of (arg 2)) (bytes_of (arg 3)))
+  | "trait_multi_sig_verify" ->
+    unit_res (pop_multi_sig_verify k o c (List.map pkpt_of (list_of (arg 0))) (sigpt_of (arg 1)) (bytes_of (arg 2)))
+  | "trait_partial_verify" ->
+    (match scheme_of (arg 0) with
+     | Basic -> unit_res (basic_partial_verify k o c (share_of (arg 1)) (share_of (arg 2)) (bytes_of (arg 3)))
+     | _ -> unit_res (pop_partial_verify k o c (share_of (arg 1)) (share_of (arg 2)) (bytes_of (arg 3))))
   | "multi_pk" -> epk (multi_pk_from_public_keys k (List.map pkpt_of (list_of (arg 0))))
   (* shares *)
   | "sk_split" ->
